@@ -36,11 +36,33 @@ def gen_cases(ctx):
     return out
 
 
+def eval_warm(desc, d):
+    """other particles dying right after a restart must not change a survivor's trajectory: the restarted run
+    is compared with the uninterrupted one (which the Sim instance reproduces)"""
+    env = desc["env"]
+    cold, files, conf = si.run_forward(d, env, "cold", numrec=desc["numrec"])
+    runs, problems = [si.enc_run(0, 0, cold)], []
+    for fi in range(len(files) - 1):
+        last = [r for r in cold if r["file"] == files[fi].name][-1]
+        warm, _ = si.run_warm(d, env, f"w{fi}", conf, files[fi], fi + 1)
+        runs.append(si.enc_run(2, last["step"], warm))
+        want = [r for r in cold if r["step"] > last["step"]]
+        tw, tc = si.traj_by_row(warm, None), si.traj_by_row(want, None)
+        for q in tc:
+            if tw.get(q) != tc[q]:
+                problems.append(f"restart after {files[fi].name}: particle {q} trajectory {tw.get(q)} != uninterrupted {tc[q]}")
+    ints = si.enc_env(env) + [len(runs)] + [x for r in runs for x in r]
+    return {"ints": ints, "oracle": "; ".join(problems[:3]) or None, "nontrivial": (desc["seed"], "warm"), "kind": "warm-indep",
+            "observed": {"files": len(files)}}
+
+
 def eval_case(desc, ctx):
     env = desc["env"]
     d = ctx.subdir("c14")
     for f in d.glob("*"):
         f.unlink()
+    if desc["k"] == "warm-indep":
+        return eval_warm(desc, d)
     base, files, conf = si.run_forward(d, env, "base")
     sub, _, _ = si.run_forward(d, env, "sub", keep=desc["keep"])
     sh, _, _ = si.run_forward(d, env, "shift", shift=desc["shift"])
